@@ -543,6 +543,7 @@ func irFile(dir string, names []string, ns string) string {
 			continue
 		}
 		ms, _ := methods(f, n)
+		cachedHash = readsKeyHash(ms["rehash"])
 		pick := func(cands ...string) *ast.FuncDecl {
 			for _, c := range cands {
 				if ms[c] != nil {
